@@ -4,11 +4,12 @@ import numpy as np
 from harness import common as C
 from harness import zoo as Z
 
-ANCHORS = ["T7lazy"]
+ANCHORS = ["T7lazy", "T3"]
 MODELS = ["Lazy"]
 RULE = ("every dask-capable model class x chunk layout (single chunk, along samples, along features, both, one element per chunk where the back-end "
         "accepts it) x scheduler (synchronous, threads with 1/2/8 workers) x compute in {True, False} x check_nans; scheduler invocations are counted "
-        "with a wrapping scheduler callable; results are compared with the in-memory fit; non-trivial: a dask-backed input with >= 2 chunks; "
+        "with a wrapping scheduler callable; results are compared with the in-memory fit; plus EOF with the randomised dask back-end (computed in fit or "
+        "deferred) on 70..90 x 45..55 matrices with a prescribed gap after the last requested mode, compared with the exact in-memory fit; non-trivial: a dask-backed input with >= 2 chunks; "
         "distinct by (class, layout, scheduler, flags)")
 PARTIAL = ["dask's optimiser, thread interleavings, float summation order and stray .values/bool() inside library calls are runtime behaviour the model "
            "cannot exhibit: covered by the scheduler-call count and the result comparison only",
@@ -158,6 +159,7 @@ def run(ctx):
                                     break
                             ctx.traces += 1
     ctx.oblige("oracle:dask fits equal the in-memory fit, stay lazy with compute=False/check_nans=False, keep the input lazy", "oracle", not ctx.violations)
+    run_randomised(ctx)
     # correspondence: the model's force-point count (zero / non-zero) per class vs the observed scheduler calls
     if ctx.extra.get("model_ok", True):
         body = [C.COQ_HEADER, "From XV Require Import Gen.T7lazy Model.Lazy.\n",
@@ -178,6 +180,55 @@ def run(ctx):
             ctx.extra["force_points_predicted"] = dict(zip(["eof", "cross", "eof_rotator", "cross_rotator", "pop", "opa"], pred))
             ctx.oblige("correspondence:force-point model vs observed scheduler calls (%d classes)" % len(ctx.extra.get("lazy_calls", {})),
                        "correspondence", not bad, "disagreements: %r" % (bad,))
+
+
+def run_randomised(ctx):
+    """the randomised dask back-end, computed in fit or deferred, against the exact in-memory fit on data with a clear gap after the last
+    requested mode (first discarded singular value 0.3 .. 0.5 of the last kept one, flat tail): 'up to the accuracy of the randomised
+    solver' is then 1e-5 with the library's default of 4 power iterations, and 5% or worse with none"""
+    import dask
+    import dask.local
+    import xarray as xr
+    import xeofs as xe
+    rng = ctx.rng.child("c12-randomised").np
+    for rep in range(ctx.n(4, 12)):
+        n, p, k = int(rng.integers(70, 90)), int(rng.integers(45, 55)), int(rng.integers(1, 4))
+        tail = float(rng.choice([0.3, 0.4, 0.5]))
+        U, _ = np.linalg.qr(rng.normal(size=(n, n)))
+        V, _ = np.linalg.qr(rng.normal(size=(p, p)))
+        sv = np.r_[10.0 * 0.8 ** np.arange(k), 10.0 * 0.8 ** (k - 1) * tail * np.ones(p - k)]
+        Xv = (U[:, :p] * sv) @ V.T
+        X = xr.DataArray(Xv, dims=("time", "x"), coords={"time": np.arange(n), "x": np.arange(p)})
+        ref = xe.single.EOF(n_modes=k, solver="full").fit(X, "time")
+        rs, rc = np.asarray(ref.singular_values().values), np.asarray(ref.components().transpose("x", "mode").values)
+        for lname, ch in (("single", (n, p)), ("samples", (n // 2, p)), ("both", (n // 2, p // 2 + 1))):
+            for compute in (True, False):
+                tag = "EOF/randomised/%s/compute=%s" % (lname, compute)
+                replay = dict(kind="randomised", X=Xv, k=k, chunks=ch, compute=compute, tail=tail)
+                ctx.case(("c12r", rep, lname, compute), nontrivial=True, tag=tag,
+                         sample=dict(cls="EOF", solver="randomized", shape=[n, p], n_modes=k, gap=tail, chunks=list(ch), compute=compute))
+                try:
+                    with dask.config.set(scheduler=dask.local.get_sync):
+                        m = xe.single.EOF(n_modes=k, solver="randomized", compute=compute, check_nans=compute, random_state=int(rng.integers(1, 1000)))
+                        m.fit(make_dask(X, ch), "time")
+                        if not compute:
+                            m.compute()
+                        gs, gc = np.asarray(m.singular_values().values), np.asarray(m.components().transpose("x", "mode").values)
+                except NotImplementedError:
+                    ctx.dist["refused:NotImplemented"] += 1
+                    continue
+                except Exception as e:
+                    ctx.violation("C12:EOF:randomised:error:%s" % C.errkind(e), "EOF(solver='randomized') on dask input (%s) raised %r" % (tag, e), replay)
+                    continue
+                es = float(np.max(np.abs(gs - rs) / rs))
+                ec = float(np.max(np.abs(np.abs((gc * rc).sum(0)) - 1.0)))
+                if not (es < 1e-3 and ec < 1e-3):
+                    ctx.violation("C12:EOF:randomised:differs-from-in-memory:compute=%s" % compute,
+                                  "EOF(solver='randomized', compute=%s) on dask input (%s, gap %.1f after mode %d): singular values off by %.3g (relative), "
+                                  "patterns off by %.3g from the in-memory fit" % (compute, lname, tail, k, es, ec), replay)
+                ctx.traces += 1
+    ctx.oblige("oracle:randomised dask fit (computed or deferred) equals the in-memory fit on spectra with a gap", "oracle",
+               not [v for v in ctx.violations if ":randomised:" in v["key"]])
 
 
 def ref_values(m, cross):
